@@ -34,32 +34,33 @@ func respell(v rc.Val, sp uint8) rc.Val {
 
 // c13Enc is the library's verdict on encoding the in-memory header set.
 func c13Enc(ctx string, prot, unprot rc.Val) error {
+	_, err := c13EncBytes(ctx, prot, unprot)
+	return err
+}
+
+// c13EncBytes also returns what the encoder emitted.
+func c13EncBytes(ctx string, prot, unprot rc.Val) ([]byte, error) {
 	sig := []byte{1, 2, 3}
 	switch ctx {
 	case "protected":
-		_, err := bridge.ToProtected(prot).MarshalCBOR()
-		return err
+		return bridge.ToProtected(prot).MarshalCBOR()
 	case "unprotected":
-		_, err := bridge.ToUnprotected(unprot, bridge.CsigParsed).MarshalCBOR()
-		return err
+		return bridge.ToUnprotected(unprot, bridge.CsigParsed).MarshalCBOR()
 	}
 	h := bridge.Headers(prot, unprot)
-	var err error
 	switch ctx {
 	case "sign1":
-		_, err = (&cose.Sign1Message{Headers: h, Payload: []byte("p"), Signature: sig}).MarshalCBOR()
+		return (&cose.Sign1Message{Headers: h, Payload: []byte("p"), Signature: sig}).MarshalCBOR()
 	case "untagged":
-		_, err = (&cose.UntaggedSign1Message{Headers: h, Payload: []byte("p"), Signature: sig}).MarshalCBOR()
+		return (&cose.UntaggedSign1Message{Headers: h, Payload: []byte("p"), Signature: sig}).MarshalCBOR()
 	case "signature":
-		_, err = (&cose.Signature{Headers: h, Signature: sig}).MarshalCBOR()
+		return (&cose.Signature{Headers: h, Signature: sig}).MarshalCBOR()
 	case "countersignature":
-		_, err = (&cose.Countersignature{Headers: h, Signature: sig}).MarshalCBOR()
+		return (&cose.Countersignature{Headers: h, Signature: sig}).MarshalCBOR()
 	case "sign-body":
-		_, err = (&cose.SignMessage{Headers: h, Payload: []byte("p"), Signatures: []*cose.Signature{{Headers: cose.Headers{Protected: cose.ProtectedHeader{}}, Signature: sig}}}).MarshalCBOR()
-	default:
-		panic("c13Enc: ctx " + ctx)
+		return (&cose.SignMessage{Headers: h, Payload: []byte("p"), Signatures: []*cose.Signature{{Headers: cose.Headers{Protected: cose.ProtectedHeader{}}, Signature: sig}}}).MarshalCBOR()
 	}
-	return err
+	panic("c13Enc: ctx " + ctx)
 }
 
 // c13Wire is the reference encoding of the same header set in its context.
@@ -101,8 +102,17 @@ func c13Wire(ctx string, prot, unprot rc.Val) (refcose.Kind, []byte) {
 // encoding of the same abstract header set, and the reference rules agree as
 // the property demands.
 func checkC13(c c13Case) error {
-	vEnc := c13Enc(c.Ctx, c.Prot, c.Unprot)
+	emitted, vEnc := c13EncBytes(c.Ctx, c.Prot, c.Unprot)
 	kind, wire := c13Wire(c.Ctx, c.Prot, c.Unprot)
+	if vEnc == nil {
+		// what the encoder produced must itself obey the rules and be accepted by the decoder
+		if werr := refcose.WellFormed(kind, emitted); werr != nil {
+			return finding("emits-nonconforming", "%s: the encoder's own output violates RFC 9052 3.1 (%v)\nprot=%s unprot=%s\nemitted=%x", c.Ctx, werr, c.Prot, c.Unprot, emitted)
+		}
+		if _, derr := decodeAny(kind, emitted); derr != nil {
+			return finding("own-output-refused", "%s: the decoder refuses what the encoder produced from a header set it accepted: %v\nprot=%s unprot=%s\nemitted=%x", c.Ctx, derr, c.Prot, c.Unprot, emitted)
+		}
+	}
 	_, vDec := decodeAny(kind, wire)
 	vRef := refcose.WellFormed(kind, wire)
 	if vEnc == nil && vRef != nil {
@@ -164,7 +174,7 @@ func c13Values() []namedVal {
 		{"uint", rc.Int(42)}, {"zero", rc.Int(0)}, {"nint", rc.Int(-7)},
 		{"tstr-plain", rc.Text("abc")}, {"tstr-type/subtype", rc.Text("text/plain")}, {"tstr-padded", rc.Text(" a/b")},
 		{"tstr-two-slashes", rc.Text("a/b/c")}, {"tstr-empty", rc.Text("")}, {"tstr-with-param", rc.Text("a/b; c=d")},
-		{"bstr", rc.Bytes([]byte{1, 2})}, {"bstr-empty", rc.Bytes(nil)},
+		{"bstr", rc.Bytes([]byte{1, 2})}, {"bstr-empty", rc.Bytes(nil)}, {"bstr-nil-slice", rc.Val{K: rc.KBytes, B: rc.Hex{}, Nil: true}},
 		{"array-empty", rc.Array()}, {"array-self", rc.Val{K: rc.KRaw}}, // array-self is replaced by [label] per cell
 		{"array-absent-label", rc.Array(rc.Int(77))}, {"array-text", rc.Array(rc.Text("x"))}, {"array-bstr", rc.Array(rc.Bytes([]byte{1}))},
 		{"map", rc.Map()}, {"map-claims", rc.Map(rc.E(rc.Int(1), rc.Text("iss")))},
